@@ -8,7 +8,7 @@ import tempfile
 from vlib.rtc.lib import *  # noqa
 
 RULE = ('for every public operation of dd.autoref and of dd.bdd with referenced operands (var, apply per connective class '
-        'and quantifier alias, ite, quantify/exist/forall, let with constants/functions/names, add_expr, cube, copy/copy_bdd '
+        'and quantifier alias, ite, quantify/exist/forall (variables as list, set, one-shot iterator, generator), let with constants/functions/names, add_expr, cube, copy/copy_bdd '
         'into a second manager, find_or_add, image, preimage, pickle and JSON load, Function operators, succ/low/high) on '
         'random managers of 4-5 variables: the operation is first run with reordering enabled but never firing to count '
         'its K requests, then re-run on an identical manager with the request firing at k = 1..K (all k if K <= 12, else '
@@ -52,7 +52,7 @@ class Ctx:
             order = self.names[:]
             rnd.shuffle(order)
         self.n = len(self.names)
-        lv = {nm: k for k, nm in enumerate(order)}
+        lv = shuffled_dict({nm: k for k, nm in enumerate(order)}, rnd)
         if self.mode == 'autoref':
             self.m = A.BDD(lv)
             self.b = self.m._bdd
@@ -121,9 +121,14 @@ def _prepare(ctx):
         fa = rnd.random() < .5
         js = [names.index(x) for x in sub]
         want = tt_forall(tf, js, n) if fa else tt_exists(tf, js, n)
-        which = rnd.randrange(2)
-        if which:
+        which = rnd.randrange(4)
+        if which == 1:
             return (lambda: (m.forall if fa else m.exist)(sub, f)), want, 'b'
+        if which == 2:
+            # the variables as a one-shot iterator (the parameter is documented as an iterable)
+            return (lambda: (m.forall if fa else m.exist)(iter(sub), f)), want, 'b'
+        if which == 3:
+            return (lambda: m.quantify(f, (x for x in sub), forall=fa)), want, 'b'
         return (lambda: m.quantify(f, set(sub), fa)), want, 'b'
     if op == 'let_const':
         sub = rnd.sample(names, rnd.randint(1, 2))
